@@ -1,9 +1,10 @@
 use super::{ksp_query::KspQuery, ksp_termination_criteria::KspTerminationCriteria};
 use crate::{
     algorithm::search::{
-        edge_traversal::EdgeTraversal, search_algorithm::SearchAlgorithm,
-        search_algorithm_result::SearchAlgorithmResult, search_error::SearchError,
-        search_instance::SearchInstance, util::edge_cut_frontier_model::EdgeCutFrontierModel,
+        a_star::bidirectional_ops, edge_traversal::EdgeTraversal,
+        search_algorithm::SearchAlgorithm, search_algorithm_result::SearchAlgorithmResult,
+        search_error::SearchError, search_instance::SearchInstance,
+        util::edge_cut_frontier_model::EdgeCutFrontierModel,
         util::route_similarity_function::RouteSimilarityFunction,
     },
     model::{network::edge_id::EdgeId, unit::Cost},
@@ -115,6 +116,10 @@ pub fn run(
                 .chain(spur_path)
                 .cloned()
                 .collect_vec();
+            // the spur path only avoids the cut edges: it may lead back through the root path
+            if bidirectional_ops::route_contains_loop(&candidate_path, si)? {
+                continue;
+            }
             let candidate_test_path: &Vec<&EdgeTraversal> = &candidate_path.iter().collect_vec();
             // replace best candidate if current candidate is sufficiently dissimilar and improves on cost
             for test_path in accepted.iter() {
